@@ -177,7 +177,7 @@ func c03Raw(c *core.Ctx, cs c03Case) {
 	if cs.Kind == "arith-parens" {
 		c.Count("verdict/invalid", 1)
 		why = `the "((" is not closed by a "))" at its own depth, and read as nested parentheses the text is no command either`
-	} else if cs.Kind == "located" {
+	} else if cs.Kind == "located" || cs.Kind == "rejected" {
 		c.Count("verdict/invalid", 1)
 		why = "hand-written ill-formed source"
 	} else {
@@ -472,6 +472,13 @@ func c03Gen(c *core.Ctx) {
 	// 1d. hand-written ill-formed sources: where the error is located
 	for _, d := range c03Located {
 		core.Do(c, c03Case{Raw: d.src, Aliases: d.al, Kind: "located"}, c03Exec)
+	}
+	// 1e. hand-written ill-formed sources around the end of a backquoted substitution: the closing
+	// backquote closes nothing else, and what it leaves open stays an error
+	for _, src := range []string{"`f(` { a; } )\n", "x=`f(`\n{ a; } )\n", "echo `f(` { a; } ) b\n", "$(echo `f(` { a; } ))\n", "`f(` )\n", "`f (` ) { a; }\n", "`(` a )\n", "`( a` )\n",
+		"`{` a; }\n", "`{ a;` }\n", "`if a; then` b; fi\n", "`while a; do` b; done\n", "`case x in` a) b;; esac\n", "`case x in a` ) b;; esac\n", "`for i in` a; do b; done\n", "`a |` b\n", "`a &&` b\n",
+		"echo \"`f(`\" { a; } )\n", "echo ${x:-`f(`} { a; } )\n", "`f(` `)` { a; }\n"} {
+		core.Do(c, c03Case{Raw: src, Kind: "rejected"}, c03Exec)
 	}
 	// 1b. prefixes of programs that end inside a here-document body
 	nhd := c.Pick(1500, 100000)
